@@ -35,7 +35,7 @@ package keyid
 //@   jsonHasKey(s, "isNonce") && jsonHasKey(s, "touchPolicy") && jsonHasKey(s, "ver")
 
 //@ # --- decoding as a function of the text
-//@ ghost pure func decOK(s string) bool =
+//@ ghost func decOK(s string) bool =
 //@   jsonOK(s) && jsVer(s) == 1 && jsonMapOK(s) && hasRequired(s) &&
 //@   cons(jsHeadless(s), jsNonce(s), jsHW(s), jsFF(s), jsTouch(s))
 //@ ghost func decNonce(s string) bool = jsNonce(s)
